@@ -231,7 +231,12 @@ func (g *gen) textSource(allowWS bool) string {
 			sb.WriteString(escText(m, g.n("mraw", 0, 3) > 0))
 		case 7:
 			m := g.pick("mr", mustachesRisky)
-			if g.avoid(fMustache) {
+			if g.chance("mrent", 2) {
+				e := g.entityLike()
+				m = g.pick("mrshape", []string{`{{ html("%s") }}`, "{{ a %s b }}", "{{ '%s' + x }}", "{{ x | default(\"%s%s\") }}"})
+				m = strings.ReplaceAll(m, "%s", e)
+			}
+			if riskyText(m) && g.avoid(fMustache) {
 				m = "{{ a < b }}"
 			}
 			sb.WriteString(escText(m, false))
@@ -239,6 +244,10 @@ func (g *gen) textSource(allowWS bool) string {
 			sb.WriteString(g.pick("esc", []string{"&lt;", "&gt;", "&amp;", "&quot;", `"`, "'", "&#39;", "a &lt; b &amp;&amp; c &gt; d", "&lt;b&gt;", "&#60;", "&#x26;"}))
 		case 9:
 			// literal ampersand sequences: the text shows "&amp;", "&lt;" ...
+			if g.chance("litgen", 2) {
+				sb.WriteString(escText(g.entityLike(), false))
+				break
+			}
 			sb.WriteString(g.pick("lit", []string{"&amp;amp;", "&amp;lt;", "&amp;#60;", "&amp;copy", "&amp;nbsp;", "AT&amp;T", "a &amp;b"}))
 		case 10:
 			e := g.pick("ent", []string{"&copy;", "&nbsp;", "&mdash;", "&hellip;", "&eacute;", "&nbsp;|&nbsp;", "\u00a0", "&emsp;", "\u3000"})
@@ -342,12 +351,31 @@ var freeBits = []string{
 	"é", "日本", "100%", "a;b", "=", "`", "\\", "\r\n", "\u00a0", "a\u00a0b", "\u2003x",
 }
 
+// entityLike draws literal text that looks like a character reference: named (letters only, with
+// digits in the name, upper case, legacy names that work without semicolon, prefixes of longer
+// names, unknown names), decimal and hexadecimal (valid, zero, remapped, out of range, empty),
+// with and without the semicolon and followed by the characters that change how an attribute
+// reads it (=, letter, digit). In the source its ampersand is escaped (&amp;frac12;), so the
+// template MEANS the literal text.
+func (g *gen) entityLike() string {
+	name := g.pick("entname", []string{
+		"amp", "lt", "gt", "quot", "copy", "nbsp", "not", "notit", "frac12", "frac14", "frac34", "sup1", "sup2", "sup3",
+		"there4", "blk14", "blk12", "blk34", "emsp13", "emsp14", "Aacute", "AMP", "LT", "ETH", "bogus", "b0gus", "x1",
+		"#60", "#x3c", "#X3C", "#38", "#0", "#128", "#x110000", "#", "#x", "#xZ", "#1a", "#189",
+	})
+	return "&" + name + g.pick("entterm", []string{";", "", ";", "=", "x", "1", " ", ";;"})
+}
+
 func (g *gen) freeValue() string {
 	k := g.n("bits", 1, 3)
 	var sb strings.Builder
 	for i := 0; i < k; i++ {
 		if i > 0 {
 			sb.WriteString(g.pick("bsp", []string{" ", "", "  ", "\n"}))
+		}
+		if g.chance("entbit", 4) {
+			sb.WriteString(g.entityLike())
+			continue
 		}
 		sb.WriteString(g.pick("bit", freeBits))
 	}
@@ -401,7 +429,7 @@ func (g *gen) attrs(tag string, extra ...attr) []attr {
 	}
 	k := g.n("nattr", 0, 3)
 	for i := 0; i < k; i++ {
-		switch g.n("akind", 0, 13) {
+		switch g.n("akind", 0, 14) {
 		case 0:
 			push(attr{name: "class", val: g.pick("cls", []string{"a", "a b", "btn  btn-primary", "\n    a\n    b\n  ", " x ", "{{ cls }}", "a {{ b }} c"})})
 		case 1:
@@ -434,6 +462,10 @@ func (g *gen) attrs(tag string, extra ...attr) []attr {
 			push(attr{name: "style", val: g.pick("sty", []string{"color: red;", "color: red;  margin: 0", "background: url('a.png')", `font-family: "Open Sans", serif`, "width: {{ w }}px"})})
 		case 12:
 			push(attr{name: "href", val: g.pick("href", []string{"#", "/a/b", "/s?q=1&p=2", "/s?a=1&amp=2&lt=3", "https://x.test/?a=b&c=d#e", "mailto:a@b.c", "{{ url }}", "/p/{{ id }}?x=1&y=2"})})
+		case 14:
+			e := g.entityLike()
+			shape := g.pick("entshape", []string{"%s", "'%s'", "type %s for a half", "a%sb", "%s%s", "x ? '%s' : y", "?a=1%s2"})
+			push(attr{name: g.pick("entattr", []string{"title", ":title", "v-html", "data-ent", "alt", "@click", "href"}), val: strings.ReplaceAll(shape, "%s", e)})
 		case 13:
 			push(attr{name: g.pick("empty", []string{"value", "alt", "data-empty", "class"}), val: g.pick("emptyv", []string{"", "", " ", "  ", "\n"})})
 		}
@@ -506,7 +538,7 @@ func (g *gen) phrasing(depth int, fb forbid) []*node {
 	return out
 }
 
-var preBits = []string{"x", "  indented", "a   b", "\n", "\n\n", "\t", "tab\tsep", "  ", "line1\nline2", "{{ code }}", "{{ a < b }}", "&lt;tag&gt;", "a &amp;&amp; b", "if (a &lt; b) {\n    return;\n}", "trailing  ", "é", "&quot;q&quot;"}
+var preBits = []string{"x", "  indented", "a   b", "\n", "\n\n", "\t", "tab\tsep", "  ", "line1\nline2", "{{ code }}", "{{ a < b }}", "&lt;tag&gt;", "a &amp;&amp; b", "if (a &lt; b) {\n    return;\n}", "trailing  ", "é", "&quot;q&quot;", "&amp;frac12;", "&amp;sup2 x", "&amp;#189;"}
 
 func (g *gen) preformatted() *node {
 	n := &node{tag: "pre", attrs: g.attrs("pre")}
@@ -537,7 +569,7 @@ func (g *gen) preformatted() *node {
 	return n
 }
 
-var taBits = []string{"x", "hello world", "  two  spaces  ", "line1\nline2", "\n", "\tindent", " ", "{{ v }}", "{{ a < b }}", "&lt;b&gt;", "a &amp; b", "&lt;/textarea&gt;", "trail \n"}
+var taBits = []string{"x", "hello world", "  two  spaces  ", "line1\nline2", "\n", "\tindent", " ", "{{ v }}", "{{ a < b }}", "&lt;b&gt;", "a &amp; b", "&lt;/textarea&gt;", "trail \n", "&amp;frac34;", "&amp;there4"}
 
 func (g *gen) textarea() *node {
 	n := &node{tag: "textarea", attrs: g.attrs("textarea")}
@@ -591,7 +623,26 @@ func (g *gen) noscript() *node {
 	return &node{tag: "noscript", rawBody: body}
 }
 
+// math draws a small MathML island (foreign content like svg).
+func (g *gen) math() *node {
+	root := &node{tag: "math", attrs: g.attrs("math")}
+	root.kids = append(root.kids, &node{tag: "mi", inline: true, kids: []*node{{isText: true, text: "x"}}})
+	root.kids = append(root.kids, &node{tag: "mo", inline: true, kids: []*node{{isText: true, text: g.pick("mo", []string{"&lt;", "&gt;", "&amp;", "=", "&amp;lt;"})}}})
+	root.kids = append(root.kids, &node{tag: "mtext", inline: true, kids: []*node{g.text(false)}})
+	if g.chance("mstyle", 3) {
+		body := g.pick("mstylev", []string{"a &amp; b", "a &amp;lt; b"})
+		if riskyText(html.UnescapeString(body)) && g.avoid(fForeign) {
+			body = "a &amp; b"
+		}
+		root.kids = append(root.kids, &node{tag: "style", rawBody: body})
+	}
+	return root
+}
+
 func (g *gen) svg() *node {
+	if g.chance("math", 6) {
+		return g.math()
+	}
 	ns := !g.avoid(fNsAttr)
 	root := &node{tag: "svg", attrs: g.attrs("svg", attr{name: "viewBox", val: "0 0 24 24"}, attr{name: "xmlns", val: "http://www.w3.org/2000/svg"})}
 	if ns && g.chance("xmlnsx", 2) {
@@ -599,7 +650,7 @@ func (g *gen) svg() *node {
 	}
 	k := g.n("svgk", 1, 3)
 	for i := 0; i < k; i++ {
-		switch g.n("svgc", 0, 4) {
+		switch g.n("svgc", 0, 6) {
 		case 0:
 			root.kids = append(root.kids, &node{tag: "path", void: true, slash: "/", attrs: []attr{{name: "d", val: "M0 0L1 1\n  L2 2z", quote: '"', sep: " "}, {name: "fill-rule", val: "evenodd", quote: '"', sep: " "}}})
 		case 1:
@@ -614,6 +665,21 @@ func (g *gen) svg() *node {
 			root.kids = append(root.kids, &node{tag: "g", attrs: []attr{{name: "clip-path", val: "url(#c)", quote: '"', sep: " "}}, kids: []*node{
 				{tag: "clipPath", attrs: []attr{{name: "id", val: "c", sep: " "}}, kids: []*node{{tag: "rect", void: true, slash: "/", attrs: []attr{{name: "width", val: "1", sep: " "}}}}},
 			}})
+		case 5:
+			// inside svg, <style>/<script> are not raw text: entities are decoded
+			body := g.pick("fstyle", []string{".a &gt; .b { fill: red }", "a &amp; b", "\n  .a{}\n\n   .b{}\n", "a &amp;lt; b", "a &lt;b&gt; c", "x &amp;amp; y", "&amp;frac12;"})
+			tag := g.pick("ftag", []string{"style", "style", "script"})
+			if riskyText(html.UnescapeString(body)) && g.avoid(fForeign) {
+				body = ".a &gt; .b { fill: red }"
+			}
+			root.kids = append(root.kids, &node{tag: tag, rawBody: body})
+		case 6:
+			txt := g.pick("fdesct", []string{"icon", "a &amp;lt; b", "x &lt;b&gt;", "{{ label }}", "&amp;frac12;"})
+			if g.chance("fdesc", 2) {
+				root.kids = append(root.kids, &node{tag: "title", rawBody: txt})
+			} else {
+				root.kids = append(root.kids, &node{tag: "desc", inline: true, kids: []*node{{isText: true, text: txt}}})
+			}
 		case 4:
 			root.kids = append(root.kids, &node{tag: "text", inline: true, attrs: []attr{{name: "x", val: "0", sep: " "}}, kids: []*node{g.text(false)}})
 		}
@@ -857,7 +923,7 @@ func (g *gen) block(depth int, fb forbid) *node {
 }
 
 func (g *gen) title() *node {
-	return &node{tag: "title", rawBody: g.pick("title", []string{"Home", "{{ title }}", "a &lt; b &amp; c", "{{ a < b ? 'x' : 'y' }} | Site", "  spaced   title  ", "&lt;b&gt; not bold", ""})}
+	return &node{tag: "title", rawBody: g.pick("title", []string{"Home", "{{ title }}", "a &lt; b &amp; c", "{{ a < b ? 'x' : 'y' }} | Site", "  spaced   title  ", "&lt;b&gt; not bold", "", "&amp;frac12; price", "{{ t }} &amp;sup2"})}
 }
 
 func (g *gen) head() *node {
